@@ -29,6 +29,9 @@ func outOfDomainOps(d *rj.Value, tier string) []r69.Op {
 	}
 	paths := []string{"/", "//", first + "/", "a", "/~", "/~2", first + "/+1", first + "/01", first + "/-0",
 		"/-9223372036854775808", "/99999999999999999999", first + "/9223372036854775807", "/-/-", "/-1/-1"}
+	// paths that walk THROUGH a location (which an earlier operation may have turned into null, a scalar or a
+	// container of the other kind) with an index / '-' / name token and go on below it
+	paths = append(paths, first+"/0/x", first+"/-/x", first+"/zz/y", first+"/0/0", first+"/1/x/y", "/zz/0/x", "/zz/-/x")
 	if tier == "thorough" {
 		paths = append(paths, first+"//x", "~", "/a~", "/+0", "/00", "/9223372036854775807", "/-99999999999999999999",
 			first+"/-9223372036854775808", "/1e2", "/0x1", "/ 1", first+"/-")
@@ -337,6 +340,8 @@ func init() {
 			ctx.Phase("string_shapes", func() {
 				runStringShapes(ctx, "C04", byteFlags{panics: true, applyOK: true})
 				runStringShapes(ctx, "C04", byteFlags{panics: true, applyOK: true, legacy: true})
+				runNumberShapes(ctx, "C04", byteFlags{panics: true, applyOK: true})
+				runNumberShapes(ctx, "C04", byteFlags{panics: true, applyOK: true, legacy: true})
 			})
 			ctx.Phase("sizes", func() {
 				// strings / names / literals of every length 0..130 and around the powers of two, objects and arrays of
